@@ -150,6 +150,11 @@ def session(concepts, seed, sid):
             elif op == 7:
                 names = rng.sample(pool_o + ['ghost1', 'ghost2', 'ghost3'], 4)
                 rec(f'take{names}', lambda: repr(d.take(names, reorder=rng.random() < .5)))
+                # ordered, re-iterable, set-like containers of names: dict key views, with several unknown names
+                pnames = rng.sample(pool_p, 2) + ['phantom-b', 'phantom-a', 'phantom-c']
+                rec(f'take-keyviews{names}{pnames}',
+                    lambda: repr(d.take(dict.fromkeys(names + ['ghost9', 'ghost8']).keys(), dict.fromkeys(pnames).keys())))
+                rec(f'take-dict{names}', lambda: repr(d.take(dict.fromkeys(['ghost7', 'ghost6', 'ghost5'] + names))))
             elif op == 8:
                 rec('remove_empty', lambda: (d.remove_empty_objects(), d.remove_empty_properties(), state()))
             elif op == 9 and d.objects:
